@@ -722,6 +722,8 @@ func TestVerifC19(t *testing.T) {
 			}
 			nops := r.Range(24, 64)
 			var sample []string
+			var lastFg, lastBg uint8
+			haveCol := false
 			for i := 0; i < nops; i++ {
 				seed := r.U64()
 				k := r.Intn(20)
@@ -740,6 +742,25 @@ func TestVerifC19(t *testing.T) {
 					if g.text && r.Chance(3, 4) {
 						fg, bg = fg&15, bg&15
 					}
+					if haveCol && r.Chance(1, 4) {
+						// a colour pair related to the previous one (what a console that remembers packed colours,
+						// attribute bytes or palette look-ups from call to call would confuse): swapped, same low
+						// nibbles, one index moved by 16 with the other moved by 1, one of the two unchanged
+						switch r.Intn(5) {
+						case 0:
+							fg, bg = lastBg, lastFg
+						case 1:
+							fg, bg = lastFg^uint8(r.Intn(16)<<4), lastBg^uint8(r.Intn(16)<<4)
+						case 2:
+							fg, bg = lastFg+16, lastBg-1
+						case 3:
+							fg, bg = lastFg-16, lastBg+1
+						default:
+							fg = lastFg
+						}
+						run.Count("writes_with_a_colour_pair_related_to_the_previous_one", 1)
+					}
+					lastFg, lastBg, haveCol = fg, bg, true
 					run.SetAdd("boundary_buckets", "write.x="+cx)
 					run.SetAdd("boundary_buckets", "write.y="+cy)
 					fp = fp.Int(1).U64(uint64(px)).U64(uint64(py)).Int(int(ch)).Int(int(fg)).Int(int(bg))
